@@ -1,6 +1,8 @@
 // Package kf reads /verif/KNOWN_FINDINGS.txt. Lines:
-//   known: property=Cnn sig=<classifier> <what fails, with the concrete input>
-//   fixed: property=Cnn <commit> <what failed>
+//
+//	known: property=Cnn sig=<classifier> <what fails, with the concrete input>
+//	fixed: property=Cnn <commit> <what failed>
+//
 // The file is never written at run time. `fixed:` lines suppress nothing.
 package kf
 
